@@ -41,6 +41,20 @@ theorem C16_compare (sem : PlainSem) (op : CmpSym) (a b : Operand) (x y : TV) (r
     · split <;> simp
     · by_cases hh : a.wrap = .tvol ∨ b.wrap = .tvol <;> simp [hh]
 
+/-- Logical operators `&&`, `||` (for EVERY interpretation `log` of the plain operators): the value is
+the plain expression's on the underlying values and the result is a `tainted<bool>` -- the model has no
+other wrapper for it; both operands are unwrapped. -/
+theorem C16_logical (log : LogSym → TV → TV → Bool) (op : LogSym) (a b : Operand) (x y : TV)
+    (ha : plainOf a = some x) (hb : plainOf b = some y) : logicalOp log op a b = Res.ok (log op x y) := by
+  unfold plainOf at ha hb
+  simp only [logicalOp, ha, hb]
+
+/-- the executable rendering used by the correspondence check is the plain C++ meaning: each operand
+counts as true iff it is non-zero (so `2 && 1` is true although `2 & 1` is 0) -/
+theorem C16_cppLog (x y : TV) :
+    (cppLog .land x y = true ↔ (x.val ≠ 0 ∧ y.val ≠ 0)) ∧ (cppLog .lor x y = true ↔ (x.val ≠ 0 ∨ y.val ≠ 0)) := by
+  simp [cppLog]
+
 /-- Unary operators. -/
 theorem C16_unary (sem : PlainSem) (op : UnSym) (a : Operand) (x : TV) (ha : plainOf a = some x) :
     unaryOp sem op a = (match sem.un op x with | some r => Res.ok r | none => Res.undef) := by
@@ -111,9 +125,11 @@ theorem ops_tables_match :
     sameElems Generated.binaryOpWrappedRhs (([BinSym.add, .sub, .mul, .div, .mod, .xor, .band, .bor, .shl, .shr].map BinSym.sym) ++
                                    ([CmpSym.eq, .ne, .lt, .le, .gt, .ge].map CmpSym.sym)) = true ∧
     Generated.postIncDecUsesOwnSymbol = true ∧ Generated.preIncDecStep = ("opSymbol", 1) ∧
-    Generated.compoundBody = "opSymbol" := by decide
+    Generated.compoundBody = "opSymbol" ∧
+    sameElems Generated.booleanBinaryOp ["&&", "||"] = true ∧ sameElems Generated.booleanBinaryOpWrappedRhs ["&&", "||"] = true := by decide
 
 /-- non-vacuity (with the executable C++ rendering): mixed wrappers and types -/
+example : (match logicalOp cppLog .land ⟨.tainted, ⟨tInt, 2⟩, tInt⟩ ⟨.tvol, ⟨tInt, 1⟩, tInt⟩ with | .ok r => r | _ => false) = true := by decide
 example : (match binOp cppSem .add ⟨.tvol, ⟨⟨false, 1, false⟩, 200⟩, ⟨false, 1, false⟩⟩ ⟨.plain, ⟨⟨true, 4, false⟩, 100⟩, tInt⟩ with
     | .ok r => r.val | _ => 0) = 300 := by decide
 example : (match incDec cppSem true true ⟨.tainted, ⟨tInt, 10⟩, tInt⟩ with | .ok (e, n) => (e.val, n.val) | _ => (0, 0)) = (10, 9) := by decide
